@@ -57,12 +57,13 @@ class _Undecidable(Exception):
 
 class Val(object):
     """Abstract runtime value of the mini evaluator."""
-    __slots__ = ('kind', 'pytype', 'inner')
+    __slots__ = ('kind', 'pytype', 'inner', 'who')
 
-    def __init__(self, kind, pytype, inner=None):
+    def __init__(self, kind, pytype, inner=None, who=None):
         self.kind = kind          # 'raw' | 'cmp' | 'const'
         self.pytype = pytype      # python type class (for raw); for cmp: type of .obj
         self.inner = inner        # for cmp: type of .inner ; for const: the python constant
+        self.who = who            # 'self' | 'other' for the two operands of a derived operator (oracle mode)
 
     def __repr__(self):
         return 'Val(%s,%s,%s)' % (self.kind, self.pytype, self.inner)
@@ -242,7 +243,11 @@ class MiniEval(object):
             if fnm == 'Comparable' and len(e.args) == 1:
                 v = self.ev(e.args[0], env, fn)
                 if v.kind == 'raw':
-                    return wrap(v.pytype)
+                    w = wrap(v.pytype)
+                    w.who = v.who
+                    return w
+                if v.kind == 'cmp' and self.oracle is not None:
+                    return v        # Comparable(Comparable(x)) compares like Comparable(x) (decided by R4.1)
                 if v.kind == 'cmp':
                     # Comparable(Comparable(x)): .obj is the Comparable itself -- not in the domain
                     raise _Undecidable('double wrapping')
@@ -288,6 +293,8 @@ class MiniEval(object):
 
     def lt(self, l, r):
         if self.oracle is not None and l.kind == 'cmp':
+            if l.who == 'other' and r.who == 'self':
+                return Val('const', 'bool', self.oracle['gt'])       # other < self  ==  self > other
             return Val('const', 'bool', self.oracle['lt'])
         if l.kind == 'const' and r.kind == 'const' and isinstance(l.inner, str) and isinstance(r.inner, str):
             return Val('const', 'bool', l.inner < r.inner)
@@ -362,6 +369,8 @@ def run(ctx):
     r42(ctx, rep)
     r43(ctx, rep)
     r44(ctx, rep)
+    rep.rule('R4.5', 'issorted decides with the operator selected from reverse / strict on every branch')
+    r45(ctx, rep)
 
 
 # ------------------------------------------------------------------------ R4.1
@@ -518,7 +527,22 @@ def r42(ctx, rep):
             else:
                 rep.held('R4.2', fn, name, norm(expr), fn.node)
     # _Keyed: keys only
-    keyed = [ctx.project.need_class('petl.transform.sorts:_Keyed')]
+    sm = ctx.project.modules.get('petl.transform.sorts')
+    kc = sm.classes.get('_Keyed') if sm is not None else None
+    keyed = [kc] if kc is not None else []
+    if kc is None:
+        # no key-only wrapper any more: what does heapq.merge compare?
+        hq = ctx.project.need_fn('petl.transform.sorts:_heapqmergesorted')
+        tuples = [n for n in ast.walk(hq.node) if isinstance(n, (ast.GeneratorExp, ast.ListComp)) and
+                  isinstance(n.elt, ast.Tuple) and len(n.elt.elts) >= 2]
+        if tuples:
+            rep.violated('R4.2', hq, norm(tuples[0].elt),
+                         'the rows handed to heapq.merge are decorated as plain tuples %s: for rows with equal keys the tuple '
+                         'comparison goes on to compare the rows themselves natively (TypeError on None / mixed types, and '
+                         'equal-key rows are re-ordered by their other cells) instead of by the mixed-type ordering on the '
+                         'key only' % norm(tuples[0].elt), tuples[0])
+        else:
+            rep.undecided('R4.2', hq, 'heap items', 'the class _Keyed is gone and the decoration of heap items is not recognised', hq.node)
     if cm is not None:
         keyed += [c for n, c in cm.classes.items() if n.startswith(('BadKeyed', 'GoodKeyed'))]
     ops = {'__eq__': ast.Eq, '__lt__': ast.Lt, '__le__': ast.LtE, '__ne__': ast.NotEq, '__gt__': ast.Gt, '__ge__': ast.GtE}
@@ -554,10 +578,15 @@ def _derived_table(ctx, rep, ci, fn, name, f):
     try:
         for x, y, wrapped in itertools.product(TYPES, TYPES, (True, False)):
             slt, seq = spec_lt(x, y), spec_eq(x, y)
-            cases = [(slt, seq)] if slt != 'NATIVE' else [(True, False), (False, True), (False, False)]
-            for lt, eq in cases:
-                me.oracle = {'lt': lt, 'eq': eq}
-                env = {'self': wrap(x), 'other': wrap(y) if wrapped else raw(y)}
+            # inside one native family: x<y, x==y, x>y -- and "unordered" (NaN, sets that are not subsets of each other):
+            # the derived operators are functions of < and == alone, so none of them may hold for an unordered pair
+            cases = [(slt, seq, (not slt) and (not seq))] if slt != 'NATIVE' else \
+                [(True, False, False), (False, True, False), (False, False, True), (False, False, False)]
+            for lt, eq, gt in cases:
+                me.oracle = {'lt': lt, 'eq': eq, 'gt': gt}
+                sv, ov = wrap(x), (wrap(y) if wrapped else raw(y))
+                sv.who, ov.who = 'self', 'other'
+                env = {'self': sv, 'other': ov}
                 try:
                     v = me.run(fn, env)
                     got = bool(v.inner) if v.kind == 'const' else None
@@ -749,7 +778,7 @@ def r43(ctx, rep):
                                                  'ordering selector passes the reference value %s unwrapped: cells are '
                                                  'compared natively (TypeError on None / mixed types, different order)'
                                                  % fmt_value(val), ev.node)
-    ctx.floor('ordering_sites', n_sites, 30)
+    ctx.floor('ordering_sites', n_sites, 22)
 
 
 # ------------------------------------------------------------------------ R4.4
@@ -826,3 +855,46 @@ def r44(ctx, rep):
         if not uses:
             rep.undecided('R4.4', fn, 'def ' + fn.name, 'the positions `%s` are never iterated or handed on' % A, fn.node)
     ctx.floor('key_getter_sites', n, 3)
+
+
+# ------------------------------------------------------------------------ R4.5
+def r45(ctx, rep):
+    """issorted(table, key, reverse, strict): the comparison that decides "in order" is the one selected from `reverse`
+    and `strict` (<, <=, >, >=), in the whole-row branch as well as in the keyed branch.  A data loop that compares with
+    a hard-wired operator ignores both flags."""
+    import ast
+    from ..loader import norm, own_nodes
+    fn = ctx.project.need_fn('petl.transform.sorts:issorted')
+    # the selector variable(s): names bound only to operator.lt/le/gt/ge (or lambdas) under tests of reverse / strict
+    binds = {}
+    for n in own_nodes(fn.node):
+        if isinstance(n, ast.Assign) and len(n.targets) == 1 and isinstance(n.targets[0], ast.Name):
+            binds.setdefault(n.targets[0].id, []).append(n.value)
+
+    def opish(v):
+        alts = [v]
+        while any(isinstance(a, ast.IfExp) for a in alts):
+            alts = [x for a in alts for x in ([a.body, a.orelse] if isinstance(a, ast.IfExp) else [a])]
+        return all(norm(a) in ('operator.lt', 'operator.le', 'operator.gt', 'operator.ge', 'lt', 'le', 'gt', 'ge') for a in alts)
+    ops = {k for k, vs in binds.items() if vs and all(opish(v) for v in vs)}
+    if not ops:
+        rep.undecided('R4.5', fn, 'operator selection', 'no variable selected from reverse / strict was recognised', fn.node)
+        return
+    n = 0
+    for lp in [x for x in own_nodes(fn.node) if isinstance(x, (ast.For, ast.While))]:
+        n += 1
+        calls = [c for b in lp.body for c in ast.walk(b) if isinstance(c, ast.Call) and isinstance(c.func, ast.Name) and c.func.id in ops]
+        hard = [c for b in lp.body for c in ast.walk(b) if isinstance(c, ast.Compare) and
+                any(isinstance(o, (ast.Lt, ast.LtE, ast.Gt, ast.GtE)) for o in c.ops)]
+        c0 = 'loop: %s' % norm(lp)[:50]
+        if hard:
+            rep.violated('R4.5', fn, c0,
+                         'the data loop decides the order with the hard-wired comparison `%s` instead of the operator selected '
+                         'from reverse / strict: issorted(..., reverse=True) and strict=True are ignored on this branch'
+                         % norm(hard[0]), hard[0])
+        elif calls:
+            rep.held('R4.5', fn, c0, 'decides with the selected operator', lp)
+        else:
+            rep.undecided('R4.5', fn, c0, 'no ordering decision recognised in the loop', lp)
+    if n < 1:
+        raise AnalysisError('anchor vanished: data loops of issorted')
